@@ -262,7 +262,9 @@ decided by exhaustive evaluation of the guard over environment x {no, some tagge
         ctx.fail_closed("C03.tables", "apply_tagging_environment has no TaggingEnvironment parameter");
         return;
     };
-    let sites = reconstruction_sites(apply_fn);
+    // the pass: every fn of that name (the definition-level entry and the recursive walk over the type)
+    let pass_fns: Vec<&FnInfo> = m.fns.iter().filter(|f| f.krate == "rasn-compiler" && f.name == "apply_tagging_environment").collect();
+    let sites = reconstruction_sites(m, &pass_fns);
     ctx.floor("C03.tables/reconstruction-sites", sites.len(), 3);
     let aliases = tuple_aliases(apply_fn, &apply_env_param);
 
@@ -364,6 +366,9 @@ decided by exhaustive evaluation of the guard over environment x {no, some tagge
                     for a in &aliases {
                         env.insert(a.clone(), tagenv(h_env));
                     }
+                    if let Some(p) = &site.env_param {
+                        env.insert(p.clone(), tagenv(h_env));
+                    }
                     env.insert(site.tag_var.clone(), tag0.clone());
                     let tag1 = match ev.eval(&syn::Expr::Struct(site.expr.clone()), &mut env) {
                         Ok(v) => v,
@@ -431,7 +436,7 @@ decided by exhaustive evaluation of the guard over environment x {no, some tagge
     // (checked implicitly by the cells; reported separately for diagnosis)
 
     choice_override(m, ctx, &ev, &render);
-    coverage(m, ctx, apply_fn, &sites);
+    coverage(m, ctx, apply_fn, &pass_fns, &sites);
     auto_tags(m, ctx, &ev);
     header_flow(m, ctx, "C03.header");
     reset_rule(m, ctx, "C03.env", "tagging_environment");
@@ -445,44 +450,67 @@ pub struct Site {
     pub tag_var: String,
     /// assignment target, e.g. `ty.tag`, `m.tag`
     pub target: String,
+    /// name of the environment parameter when the literal sits in a helper method of AsnTag
+    pub env_param: Option<String>,
 }
 
 /// `X.tag = Y.tag.as_ref().map(|t| AsnTag { .. })` sites
-fn reconstruction_sites(f: &FnInfo) -> Vec<Site> {
-    struct C {
+/// The places where the tagging pass rebuilds a tag: `X.tag = X.tag.as_ref().map(|t| AsnTag { .. })` written out, or
+/// `.. .map(|t| t.helper(env))` where `helper` is a method of AsnTag whose body is the `AsnTag { .. }` literal. The pass may
+/// be spread over several fns of that name (the top-level definition and the recursive walk over ASN1Type).
+fn reconstruction_sites(m: &Model, pass: &[&FnInfo]) -> Vec<Site> {
+    struct C<'a> {
+        m: &'a Model,
         out: Vec<Site>,
     }
-    impl model::DeepCb for C {
+    impl<'a> model::DeepCb for C<'a> {
         fn expr(&mut self, e: &syn::Expr) {
             if let syn::Expr::Assign(a) = e {
                 let target = tok(&a.left);
-                // find closure with AsnTag struct body in the RHS
-                struct D {
-                    found: Option<(String, syn::ExprStruct)>,
+                struct D<'a> {
+                    m: &'a Model,
+                    found: Option<(String, syn::ExprStruct, Option<String>)>,
                 }
-                impl model::DeepCb for D {
+                impl<'a> model::DeepCb for D<'a> {
                     fn expr(&mut self, e: &syn::Expr) {
                         if let syn::Expr::Closure(cl) = e {
-                            if let syn::Expr::Struct(st) = &*cl.body {
-                                if st.path.segments.last().map(|s| s.ident == "AsnTag").unwrap_or(false) {
+                            match &*cl.body {
+                                syn::Expr::Struct(st) if st.path.segments.last().map(|s| s.ident == "AsnTag").unwrap_or(false) => {
                                     if let Some(p) = cl.inputs.first() {
-                                        self.found = Some((tok(p), st.clone()));
+                                        self.found = Some((tok(p), st.clone(), None));
                                     }
                                 }
+                                // |t| t.helper(env)
+                                syn::Expr::MethodCall(mc) if cl.inputs.first().map(|p| tok(p)) == Some(tok(&mc.receiver)) => {
+                                    let name = mc.method.to_string();
+                                    if let Some(h) = self.m.fns.iter().find(|f| f.name == name && f.self_ty.as_deref() == Some("AsnTag")) {
+                                        let lit = match h.block.stmts.last() {
+                                            Some(syn::Stmt::Expr(syn::Expr::Struct(st), None)) => Some(st.clone()),
+                                            _ => None,
+                                        };
+                                        let envp = h.sig.inputs.iter().find_map(|a| match a { syn::FnArg::Typed(t) => Some(tok(&t.pat)), _ => None });
+                                        if let Some(st) = lit {
+                                            self.found = Some(("self".to_string(), st, envp));
+                                        }
+                                    }
+                                }
+                                _ => {}
                             }
                         }
                     }
                 }
-                let mut d = D { found: None };
+                let mut d = D { m: self.m, found: None };
                 model::deep_walk_expr(&a.right, &mut d);
-                if let Some((v, st)) = d.found {
-                    self.out.push(Site { expr: st, tag_var: v, target });
+                if let Some((v, st, envp)) = d.found {
+                    self.out.push(Site { expr: st, tag_var: v, target, env_param: envp });
                 }
             }
         }
     }
-    let mut c = C { out: vec![] };
-    model::deep_walk_block(&f.block, &mut c);
+    let mut c = C { m, out: vec![] };
+    for f in pass {
+        model::deep_walk_block(&f.block, &mut c);
+    }
     c.out
 }
 
@@ -638,7 +666,7 @@ fn choice_override(m: &Model, ctx: &mut Ctx, ev0: &Evaluator, render: &dyn Fn(&V
 }
 
 /// every `Option<AsnTag>` field: written by the pass, rendered by the generator; nested types visited
-fn coverage(m: &Model, ctx: &mut Ctx, apply_fn: &FnInfo, sites: &[Site]) {
+fn coverage(m: &Model, ctx: &mut Ctx, apply_fn: &FnInfo, pass_fns: &[&FnInfo], sites: &[Site]) {
     // positions
     let mut positions: Vec<(String, String)> = vec![];
     for s in m.structs.iter().filter(|s| s.module.starts_with("intermediate")) {
@@ -651,7 +679,7 @@ fn coverage(m: &Model, ctx: &mut Ctx, apply_fn: &FnInfo, sites: &[Site]) {
     ctx.floor("C03.coverage/positions", positions.len(), 4);
     let written: Vec<String> = sites.iter().map(|s| s.target.rsplit('.').next().unwrap_or("").to_string()).collect();
     // which struct does each written target belong to? by the field name + iteration source
-    let body = tok(&apply_fn.block);
+    let body: String = pass_fns.iter().map(|f| tok(&f.block)).collect::<Vec<_>>().join(" ");
     for (st, fname) in &positions {
         let key = format!("{}.{}", st, fname);
         ctx.oblige("C03.coverage/pass", &key, true);
@@ -669,17 +697,16 @@ fn coverage(m: &Model, ctx: &mut Ctx, apply_fn: &FnInfo, sites: &[Site]) {
     }
     // recursion through nested types: the pass (or a fn it calls) must be applied to member / option / element types
     ctx.oblige("C03.coverage/nesting", "recursion", true);
-    let calls = model::invoked_names(&apply_fn.block);
-    let mut reach: Vec<&FnInfo> = vec![apply_fn];
-    for f in m.fns.iter() {
-        if calls.contains(&f.name) && f.krate == "rasn-compiler" && tok(&f.block).contains("AsnTag{") {
-            reach.push(f);
-        }
-    }
-    let recursive = reach.iter().any(|f| {
-        let names = model::invoked_names(&f.block);
-        names.contains(&f.name) && (f.name != "apply_tagging_environment" || tok(&f.block).matches("apply_tagging_environment").count() > 0)
-    });
+    // recursive = one of the pass fns applies the pass (a fn of the same name) to a member / option / element type
+    let recursive = pass_fns.iter().any(|f| {
+        model::method_calls_in(&f.block).iter().any(|mc| mc.method == "apply_tagging_environment" && {
+            let r = tok(&mc.receiver);
+            r.ends_with(".ty") || r.ends_with(".element_type") || r.contains("element_type")
+        })
+    }) || {
+        let calls = model::invoked_names(&apply_fn.block);
+        m.fns.iter().any(|f| calls.contains(&f.name) && f.krate == "rasn-compiler" && tok(&f.block).contains("AsnTag{") && f.name != "apply_tagging_environment" && model::invoked_names(&f.block).contains(&f.name))
+    };
     if !recursive {
         ctx.violate("C03.coverage", "nested-types-not-visited", &apply_fn.file, apply_fn.line,
             "the tagging pass is not recursive: tags on components of anonymous nested SEQUENCE/SET/CHOICE types (and on elements of nested SEQUENCE OF) never get the module default applied (X.680 §31.2.7 holds at every nesting depth)");
